@@ -1,7 +1,7 @@
 """C01 — generated moves are exactly the legal moves (structural clauses of the generator)."""
 import itertools
 
-from sa.sym import Engine, show, show_cond, subterms, C, is_const, PathLimit
+from sa.sym import guards, Engine, show, show_cond, subterms, C, is_const, PathLimit
 from sa.evalterm import ev, Unevaluable, geom, squares
 from .common import *
 from .tables import is_true, is_false, pin
@@ -258,7 +258,8 @@ def r3_castle_guards(ctx):
             # guard set of this push = conditions common to every path that performs it
             common = None
             for o in paths:
-                cs = {(a, cond_value(v)) for a, v in o.conds}
+                # (assertions - conditions whose other side panics, e.g. a `debug_assert!` in a helper - are not guards of the move)
+                cs = {(a, cond_value(v)) for a, v in guards(outs, o)}
                 common = cs if common is None else (common & cs)
             o = paths[0]
             att_calls = [e for e in o.events if e[0] == 'call' and e[1] == GAT]
